@@ -294,6 +294,9 @@ C13ok(E, tags, q, period) ==
        LET e == SubEnd(E, 1) IN
        e # 0 => \A p \in Pos(E) : (E[p].ev = "emitcall" /\ p > e /\ E[p].clk >= E[e].clk + period) => E[p].issub = 0
   /\ HasTag(tags, "replay-once") => \A u \in Subscribers(E) : NoDup(Delivered(E, u))
+  \* "joiner-gets-items": subscriber 1 leaves while subscriber 2 joins (two threads); whatever the order, subscriber 2 is present
+  \* afterwards, so the item the (hot) source emits later reaches it: the source is (still or again) subscribed
+  /\ HasTag(tags, "joiner-gets-items") => (q.fin = "ok" /\ Delivered(E, 2) = <<11>>)
 
 Judge(E, tags, q) ==
   LET fin == q.fin IN
